@@ -334,6 +334,12 @@ def handmade():
         {'prefix': 'P', 'modes': [m('M', [{'p': '[ (C#7)]', 't': 3}, {'p': '[(C#99)"]x', 't': 4}])]},
         # accepting start state of a nullable pattern, a mode without patterns
         {'prefix': 'P', 'modes': [m('N', [{'p': 'a*', 't': 1}]), m('E', [])], 'may_fail': True},
+        # nullable patterns and nullable lookaheads (the empty word must never be a token: state 0 never accepts),
+        # loops back to the start state after minimization
+        {'prefix': 'P', 'modes': [m('N', [{'p': 'a*', 't': 1}])]},
+        {'prefix': 'P', 'modes': [m('N', [{'p': '(ab)*', 't': 7}, {'p': 'c?', 't': 2}])]},
+        {'prefix': 'P', 'modes': [m('N', [{'p': 'x', 't': 4, 'la': {'pos': True, 'p': '(cd)*'}}, {'p': 'y?', 't': 5, 'la': {'pos': False, 'p': 'a?'}}])]},
+        {'prefix': 'P', 'modes': [m('N', [{'p': '(a|)(b|)', 't': 3}, {'p': '', 't': 9}])]},
         # many lookaheads: cluster order is the hash map's
         {'prefix': 'Test0', 'modes': [m('L', [{'p': chr(97 + i), 't': i * 7 + 1, 'la': {'pos': i % 2 == 0, 'p': chr(98 + i) + '+'}}
                                               for i in range(8)])]},
@@ -353,7 +359,8 @@ class C18:
     ID = 'C18'
     THEOREMS = [('Properties.C18', ['C18_render_faithful', 'C18_render_text_faithful', 'C18_nodes_edges_exact',
                                     'C18_line_roundtrip', 'C18_last_class_id', 'C18_label_safeb',
-                                    'C18_file_names', 'C18_file_name_inj'])]
+                                    'C18_file_names', 'C18_file_name_inj', 'C18_accepting_labels_exact',
+                                    'C18_compiled_start_not_accepting'])]
     COQ_TARGETS = ['Properties/C18.vo']
     LEVEL = 'proof'
     ASSUMPTIONS = [
@@ -519,7 +526,14 @@ class C18:
         st['clusters'] += len(cl)
         # the start state is drawn blue without a token type even if it is accepting (graph_of says so too);
         # counted so that the evidence shows whether this ever matters
-        st['accepting_start_states'] += sum(1 for d in [m['dfa']] + [l[2] for l in m['dfa'].get('las', [])] if d['end'] and d['end'][0][0])
+        nacc0 = sum(1 for d in [m['dfa']] + [l[2] for l in m['dfa'].get('las', [])] if d['end'] and d['end'][0][0])
+        st['accepting_start_states'] += nacc0
+        if nacc0:
+            # premise of C18_accepting_labels_exact (proved for the pipeline model: C18_compiled_start_not_accepting)
+            v['violations'].append('state 0 of %d automaton/automata of mode %s is accepting (token type %s), but the picture draws state 0 '
+                                   'without an accepting label: the accepting labels are not exactly the accepting states'
+                                   % (nacc0, m['name'], [d['end'][0][1] for d in [m['dfa']] + [l[2] for l in m['dfa'].get('las', [])]
+                                                          if d['end'] and d['end'][0][0]]))
         st['clusters_pos'] += sum(1 for c in cl if c[1] == 1)
         st['clusters_neg'] += sum(1 for c in cl if c[1] == 0)
         real = decode_enc(real_enc)
